@@ -37,9 +37,13 @@ def add (k : Nat) (s : Store) : Store :=
 
 /-- the two pointer writes of `discard` on the cell at address `a` -/
 def unlink (s : Store) (a : Nat) : Store :=
+  -- the two neighbours are read ONCE, before the writes (as `key, prev, next_ = self.map.pop(key)` does); with the
+  -- reads inside the closures the compiled driver re-evaluates them on every look-up (exponential in the discards)
+  let p := s.prev a
+  let n := s.next a
   { s with
-    next := fun z => if z = s.prev a then s.next a else s.next z
-    prev := fun z => if z = s.next a then s.prev a else s.prev z }
+    next := fun z => if z = p then n else s.next z
+    prev := fun z => if z = n then p else s.prev z }
 
 /-- `discard`: `key, prev, next_ = self.map.pop(key); prev[2] = next_; next_[1] = prev` -/
 def discard (k : Nat) (s : Store) : Store :=
